@@ -234,7 +234,9 @@ def run_case(case):
     return obs
 
 
-hname = st.sampled_from(["User-Agent", "X-Custom", "Authorization", "x-lower", "X-Trace-Id", "Accept-Language"])
+hname = st.sampled_from(["User-Agent", "X-Custom", "Authorization", "x-lower", "X-Trace-Id", "Accept-Language",
+                         # names that merely *contain* the name of a standard field
+                         "X-Origin", "X-Forwarded-Origin", "Origin-Trial", "X-Host", "X-Forwarded-Host", "X-Cookie", "Sec-WebSocket-Extensions-Hint", "X-Upgrade", "X-Connection"])
 hval = st.one_of(st.sampled_from(["v", "Bearer abc.def", "a: b", "1;q=0.5, x", "ü", "Bearer " + "t" * 17000, "x" * 70000]), st.text(alphabet="abcXYZ0123 -_=;,:/", min_size=1, max_size=12).map(str.strip).filter(bool))
 
 
